@@ -7,6 +7,8 @@ import (
 	"net/http"
 
 	"goa.design/goa/v3/middleware"
+	"net/url"
+	"regexp"
 )
 
 // ---- C19 (HTTP): request id, trace propagation, sampling, capture ----
@@ -252,4 +254,55 @@ func VerifC19_Capture() {
 	}
 	verifAssert("capture:status", c.StatusCode == code && inner.status == code)
 	verifAssert("capture:bytes-actually-written", c.ContentLength == total && c.ContentLength == inner.written)
+}
+
+// VerifC19_TraceDiscard: paths matching a discard pattern are not traced unless
+// the request already carries a trace ID.
+func VerifC19_TraceDiscard() {
+	path := "/" + nondetStringUpTo("path", 3)
+	for i := 0; i < len(path); i++ {
+		verifAssume(path[i] < 0x80)
+	}
+	verifMode("ascii-input")
+	discard := regexp.MustCompile(`^/h[a-z]?$`)
+	r := &http.Request{Header: http.Header{}, URL: &url.URL{Path: path}}
+	inTrace := ""
+	if nondetBool("has-trace") {
+		inTrace = nondetString("in-trace", 1)
+		r.Header.Set(TraceIDHeader, inTrace)
+	}
+	var got verifSpan
+	h := Trace(SamplingPercent(100), DiscardFromTrace(discard),
+		TraceIDFunc(func() string { return "T" }), SpanIDFunc(func() string { return "S" }))(
+		http.HandlerFunc(func(w http.ResponseWriter, req *http.Request) { got = verifSpanOf(req.Context()) }))
+	h.ServeHTTP(&verifW{h: http.Header{}}, r)
+	matches := len(path) >= 2 && path[1] == 'h' && (len(path) == 2 || (len(path) == 3 && path[2] >= 'a' && path[2] <= 'z'))
+	switch {
+	case inTrace != "":
+		verifAssert("discard:inbound-trace-overrides-discard", got.traced && got.trace == inTrace)
+	case matches:
+		verifAssert("discard:matching-path-not-traced", !got.traced)
+	default:
+		verifAssert("discard:other-paths-traced", got.traced && got.trace == "T")
+	}
+}
+
+// VerifC19_AdaptiveSamplerWarmup: with adaptive sampling every request is
+// traced until the first sample window is full.
+func VerifC19_AdaptiveSamplerWarmup() {
+	size := nondetChoice("sample-size", 3) + 2 // 2..4
+	rate := nondetInt("max-rate")
+	verifAssume(rate >= 1 && rate <= 1000)
+	traced := 0
+	h := Trace(MaxSamplingRate(rate), SampleSize(size),
+		TraceIDFunc(func() string { return "T" }), SpanIDFunc(func() string { return "S" }))(
+		http.HandlerFunc(func(w http.ResponseWriter, req *http.Request) {
+			if verifSpanOf(req.Context()).traced {
+				traced++
+			}
+		}))
+	for i := 0; i < size-1; i++ {
+		h.ServeHTTP(&verifW{h: http.Header{}}, &http.Request{Header: http.Header{}})
+	}
+	verifAssert("adaptive:every-request-of-the-first-window-traced", traced == size-1)
 }
